@@ -324,6 +324,9 @@ def run(ctx, replay=None):
     n_agenda = 1500 if ctx.quick else 40000
     n_prog = 1200 if ctx.quick else 30000
     scs = []
+    # unbounded parameters: the origin is never ahead of the clock, and the 'too slow' error is raised only in strict mode
+    # with a lag beyond the factor -- an inductive invariant of Realtime.tla (Apalache)
+    ctx.inductive("RealtimeApa", "misc")
     for label, cfg, emits in mc_cfgs(ctx):
         req = [a for a in MC_ACTIONS if not (emits == "nonstrict" and a in ("MTurnRaise", "MRaised"))]
         r = ctx.mc("RealtimeMC", cfg, "misc", required_actions=req, label=label, timeout=3000,
